@@ -21,6 +21,7 @@ type callResult struct {
 
 type heldCall struct {
 	c     *clientC
+	ss    *sessC
 	x     int
 	sess  [16]byte
 	slot  uint32
@@ -35,17 +36,31 @@ type heldCall struct {
 // hold starts [PUTFH fh, READ/WRITE sid] and returns once the request
 // is either blocked inside the leaf or has completed.
 func (s *script) hold(c *clientC, slot int, leaf int, kind string, fh []byte, id sid) *heldCall {
+	return s.holdC(c, slot, leaf, kind, fh, id, true)
+}
+
+// holdC is hold with an explicit sa_cachethis (false: the reply has
+// three results, so the server does not have to keep it).
+func (s *script) holdC(c *clientC, slot int, leaf int, kind string, fh []byte, id sid, cache bool) *heldCall {
+	if s.dead || len(c.sess) == 0 {
+		return nil
+	}
+	return s.holdOn(c, c.sess[0], slot, leaf, kind, fh, id, cache)
+}
+
+// holdOn is holdC on a given session of the client.
+func (s *script) holdOn(c *clientC, ss *sessC, slot int, leaf int, kind string, fh []byte, id sid, cache bool) *heldCall {
 	if s.dead {
 		return nil
 	}
-	ss := c.sess[0]
 	sl := &ss.slots[slot]
 	io := read(id)
 	if kind == "WRITE" {
 		io = write(id, "HH")
 	}
-	hc := &heldCall{c: c, x: s.e.newCtx(), sess: ss.id, slot: uint32(slot), seq: sl.next, cache: true,
+	hc := &heldCall{c: c, ss: ss, x: s.e.newCtx(), sess: ss.id, slot: uint32(slot), seq: sl.next, cache: cache,
 		ops: []*Op{putfh(fh), io}, done: make(chan callResult, 1)}
+	s.helds = append(s.helds, hc)
 	hc.gate = s.e.armGate(kind, leaf)
 	args := seqArgs(hc.sess, hc.slot, hc.seq, hc.cache, hc.ops)
 	go func() {
@@ -88,11 +103,32 @@ func (s *script) finishHeld(hc *heldCall, from int) {
 		s.e.tr.Emit(common.Ev{"ev": "anomaly", "what": "held request reached the leaf but its reply says otherwise"})
 	}
 	if from == 0 && len(res.Resarray) > 0 && resopStatus(res.Resarray[0]) == nfsv4.NFS4_OK {
-		sl := &hc.c.sess[0].slots[hc.slot]
+		sl := &hc.ss.slots[hc.slot]
 		sl.next = hc.seq + 1
 		sl.last = &sentReq{seq: hc.seq, cache: hc.cache, ops: hc.ops}
 	}
 	s.e.logSeqResult(hc.x, hc.sess, hc.slot, hc.seq, hc.cache, hc.ops, true, res, from)
+}
+
+// unblock lets every request that is still held inside a leaf run to its
+// end without logging it (the scenario stopped early, e.g. because the
+// real code panicked). It reports whether all of them returned.
+func (s *script) unblock() bool {
+	all := true
+	for _, hc := range s.helds {
+		if !hc.held {
+			continue
+		}
+		hc.held = false
+		close(hc.gate.release)
+		synctest.Wait()
+		select {
+		case <-hc.done:
+		default:
+			all = false
+		}
+	}
+	return all
 }
 
 // release lets a held request continue and waits for its completion.
@@ -170,6 +206,7 @@ func (s *script) collect(d *dupCall) bool {
 	default:
 		s.e.tr.Emit(common.Ev{"ev": "duphang", "x": d.x})
 		s.dead = true
+		s.hung = true
 		return false
 	}
 }
@@ -219,6 +256,7 @@ var concScenarios = []scenario{
 		s.do(a, putroot(), openName("o1", "a", shRW, "NOCREATE"), getfh())
 		oa := a.open("o1", s.fh(1))
 		h := s.hold(a, 0, 1, "READ", s.fh(1), oa.sid)
+		s.doOn(a, 0, 1, true, putroot(), getfh()) // a second request comes and goes: A stays held
 		s.e.advance(leaseTicks + 3)
 		s.do(b, putroot(), openName("o1", "a", shR, "NOCREATE"), getfh()) // B re-registers below if needed
 		a2 := newClient("A", 2)
@@ -240,6 +278,54 @@ var concScenarios = []scenario{
 		h2 := s.hold(a, 0, 2, "WRITE", s.fh(2), bypassSid)
 		s.do(b, putroot(), openName("o1", "b", shRW, "NOCREATE"), getfh())
 		s.release(h2)
+	}},
+	{"io-in-flight-destroy", func(s *script) {
+		// The client's session and the client itself are destroyed while
+		// one of its requests is still running.
+		a := s.client("A", 1)
+		b := s.client("B", 1)
+		h := s.hold(a, 0, 1, "READ", s.fh(1), anonSid)
+		s.e.destroySession(a.sess[0].id, true)
+		s.e.destroyClientID(a.cid, true) // must be refused: a request of A is in flight
+		s.do(b, putroot(), lookup("a"), getfh())
+		s.e.destroyClientID(a.cid, true)
+		s.release(h)
+		s.e.destroyClientID(a.cid, true) // now A can go
+		s.e.destroyClientID(a.cid, true)
+	}},
+	{"io-in-flight-lock-stateid", func(s *script) {
+		// A WRITE with a lock state ID is running while the open is
+		// downgraded and the lock state is freed.
+		a := s.client("A", 1)
+		s.do(a, putroot(), openName("o1", "a", shRW, "NOCREATE"), getfh())
+		oa := a.open("o1", s.fh(1))
+		s.do(a, putfh(s.fh(1)), lockNew(oa.sid, "l1", "W", 0, 2))
+		la := a.lock("o1", "l1", s.fh(1))
+		h := s.hold(a, 0, 1, "WRITE", s.fh(1), la.sid)
+		s.doOn(a, 0, 1, true, putfh(s.fh(1)), downgrade(oa.sid, shR))
+		s.doOn(a, 0, 1, true, putfh(s.fh(1)), locku(la.sid, 0, 4))
+		s.doOn(a, 0, 1, true, freeSid(la.sid))
+		s.doOn(a, 0, 1, true, putfh(s.fh(1)), write(oa.sid, "no"))
+		s.doOn(a, 0, 1, true, putfh(s.fh(1)), write(la.sid, "no"))
+		s.release(h)
+		s.doOn(a, 0, 1, true, putfh(s.fh(1)), closeOp(oa.sid))
+	}},
+	{"duplicate-in-flight-uncached", func(s *script) {
+		// The original does not ask for its reply to be cached (and the
+		// reply has three results): duplicates that arrive while it runs
+		// still complete with its full result; a retransmission that
+		// arrives afterwards gets what the cache kept.
+		a := s.client("A", 1)
+		s.do(a, putroot(), openName("o1", "a", shRW, "NOCREATE"), getfh())
+		oa := a.open("o1", s.fh(1))
+		h := s.holdC(a, 0, 1, "READ", s.fh(1), oa.sid, false)
+		d1 := s.duplicate(h, false, h.ops)
+		d2 := s.duplicate(h, true, h.ops)
+		s.release(h)
+		if s.collect(d1) {
+			s.collect(d2)
+		}
+		s.resend(a, 0, 0, h.seq, false, h.ops...)
 	}},
 	{"duplicate-in-flight-same", func(s *script) {
 		a := s.client("A", 1)
@@ -280,8 +366,172 @@ func TestInFlight(t *testing.T) {
 			s := newScript(tr, 100+i, sc.name, []string{"a", "b"})
 			runGuarded(s, sc)
 			if s.dead {
-				hung = true
-				tr.Close()
+				// The real code panicked or a duplicate never returned.
+				if !s.unblock() || s.hung {
+					hung = true
+					tr.Close()
+				}
+				return
+			}
+			s.finish()
+		})
+		if hung {
+			return
+		}
+	}
+	tr.Close()
+}
+
+// ---------------------------------------------------------------------
+// Seeded random histories with requests in flight: READ/WRITE requests
+// are held inside the leaf at random moments while the other clients
+// (and the other slots of the same client) go on with opens, closes,
+// downgrades, locks, registrations, destroys, retransmissions and clock
+// advances; duplicates of the held requests are sent, with the same and
+// with different content.
+
+type rhold struct {
+	hc   *heldCall
+	sl   *slotC
+	dups []*dupCall
+}
+
+func (d *rdriver) slotHeld(sl *slotC) bool {
+	for _, h := range d.holds {
+		if h.sl == sl {
+			return true
+		}
+	}
+	return false
+}
+
+func (d *rdriver) waitingDups() int {
+	n := 0
+	for _, h := range d.holds {
+		n += len(h.dups)
+	}
+	return n
+}
+
+func (d *rdriver) startHold() {
+	s := d.s
+	c := d.pickClient()
+	if len(c.opens) == 0 {
+		// prefer a client that has something open
+		for _, o := range s.clients {
+			if len(o.opens) > 0 && len(o.sess) > 0 && d.chance(70) {
+				c = o
+			}
+		}
+	}
+	if len(c.sess) == 0 {
+		return
+	}
+	ss := c.sess[d.pick(len(c.sess))]
+	slot := d.pick(nSlots)
+	if d.slotHeld(&ss.slots[slot]) {
+		slot = (slot + 1) % nSlots
+		if d.slotHeld(&ss.slots[slot]) {
+			return
+		}
+	}
+	var id sid
+	var fh []byte
+	switch d.pick(5) {
+	case 0:
+		lc := d.someLock(c)
+		id, fh = d.mutate(c, lc.sid), lc.fh
+	case 1:
+		id, fh = []sid{anonSid, bypassSid}[d.pick(2)], d.anyFile()
+	default:
+		oc := d.someOpen(c)
+		id, fh = d.mutate(c, oc.sid), oc.fh
+	}
+	if fh == nil {
+		return
+	}
+	leaf := fileNo(s.e.tokOfHandle(fh))
+	if leaf == 0 {
+		return
+	}
+	kind := []string{"READ", "WRITE"}[d.pick(2)]
+	hc := s.holdOn(c, ss, slot, leaf, kind, fh, id, d.chance(60))
+	if hc != nil && hc.held {
+		d.holds = append(d.holds, &rhold{hc: hc, sl: &ss.slots[slot]})
+	}
+}
+
+func (d *rdriver) releaseHold(i int) {
+	h := d.holds[i]
+	d.holds = append(d.holds[:i], d.holds[i+1:]...)
+	d.s.release(h.hc)
+	for _, dp := range h.dups {
+		if d.s.dead || !d.s.collect(dp) {
+			return
+		}
+	}
+}
+
+func (d *rdriver) dupOne() {
+	h := d.holds[d.pick(len(d.holds))]
+	ops := h.hc.ops
+	if d.chance(35) {
+		ops = d.compound(h.hc.c)
+		if len(ops) > maxOps-1 {
+			ops = ops[:maxOps-1]
+		}
+	}
+	cache := h.hc.cache
+	if d.chance(25) {
+		cache = !cache
+	}
+	if dp := d.s.duplicate(h.hc, cache, ops); dp != nil && dp.waiting {
+		h.dups = append(h.dups, dp)
+	}
+}
+
+func (d *rdriver) stepInFlight() {
+	switch r := d.pick(100); {
+	case r < 20 && len(d.holds) < 2:
+		d.startHold()
+	case r < 30 && len(d.holds) > 0:
+		d.releaseHold(d.pick(len(d.holds)))
+	case r < 40 && len(d.holds) > 0 && d.waitingDups() < 1:
+		d.dupOne()
+	default:
+		d.step()
+	}
+}
+
+// TestRandomInFlight: VERIF_N traces of VERIF_STEPS steps, each inside
+// its own synctest bubble.
+func TestRandomInFlight(t *testing.T) {
+	traces := common.EnvInt("VERIF_N", 10)
+	steps := common.EnvInt("VERIF_STEPS", 60)
+	tr := common.NewTrace("trace.ndjson")
+	for i := 0; i < traces; i++ {
+		hung := false
+		synctest.Test(t, func(t *testing.T) {
+			rng := common.Rand(int64(5000 + i))
+			s := newScript(tr, 2000+i, "random-inflight", []string{"a", "b"})
+			d := &rdriver{s: s, rng: rng}
+			for j := 0; j < 2; j++ {
+				c := newClient([]string{"A", "B"}[j], 1)
+				s.clients = append(s.clients, c)
+				s.register(c, true)
+				d.sessions++
+			}
+			for j := 0; j < steps && !s.dead; j++ {
+				d.stepInFlight()
+			}
+			for len(d.holds) > 0 && !s.dead {
+				d.releaseHold(0)
+			}
+			if s.dead {
+				if !s.unblock() || s.hung {
+					hung = true
+					tr.Close()
+				}
 				return
 			}
 			s.finish()
